@@ -822,7 +822,7 @@ func (r *hRowAn) search(initial whFacts) {
 		n := r.g.nodes[s.node]
 		hs, gap, pend, old, reg, fs := s.hs, s.gap, s.pend, s.old, []byte(s.reg), s.facts
 		const unread = "a checksum was read from the stream into %s while this hasher held data, but on this path it is never compared with the hasher's value"
-		line := func(what string) string { return fmt.Sprintf("%s:%d %s", shortFile(r.f.Filename()), n.line, what) }
+		line := func(what string) string { return fmt.Sprintf("%s:%d %s", hShortFile(r.f.Filename()), n.line, what) }
 		switch n.kind {
 		case whFallOff:
 			if hs == 'D' && !r.row.exitDirtyOK {
@@ -1050,7 +1050,7 @@ func (r *hRowAn) search(initial whFacts) {
 	}
 }
 
-func shortFile(s string) string {
+func hShortFile(s string) string {
 	if i := strings.Index(s, "/std/"); i >= 0 {
 		return s[i+1:]
 	}
